@@ -295,8 +295,9 @@ def down_oracle(kd, p, y, xs):
     return out
 
 
-def fully_asserted(kb, facts, i, g, memo):
-    """bounds of object i at grounding g when every predicate fact it depends on is asserted, else None"""
+def fully_asserted(kb, facts, i, g, memo, worlds=None):
+    """bounds of object i at grounding g when every predicate fact it depends on is asserted, else None
+    (a formula's own world default is aggregated in; None as soon as a contradiction is involved: arresting)"""
     key = (i, g)
     if key in memo:
         return memo[key]
@@ -306,13 +307,16 @@ def fully_asserted(kb, facts, i, g, memo):
     else:
         xs = []
         for j, m in zip(ops, maps):
-            xs.append(fully_asserted(kb, facts, j, tuple(g[s] for s in m), memo))
-        if any(x is None for x in xs):
+            xs.append(fully_asserted(kb, facts, j, tuple(g[s] for s in m), memo, worlds))
+        if any(x is None for x in xs) or any(x[0] > x[1] for x in xs):
             r = None
-        elif kd == 1:
-            r = (1 - xs[0][1], 1 - xs[0][0])
         else:
-            r = up_oracle(kd, kb[i][4], xs)
+            r = (1 - xs[0][1], 1 - xs[0][0]) if kd == 1 else up_oracle(kd, kb[i][4], xs)
+            own = facts[i].get(g)
+            w = own if own is not None else (sx.bnd(worlds[i]) if worlds is not None else UNK)
+            r = (max(w[0], r[0]), min(w[1], r[1]))
+            if r[0] > r[1]:
+                r = None
     memo[key] = r
     return r
 
@@ -339,7 +343,7 @@ def mon_c09_up(sc, obs):
         if o[0] == 0:
             continue
         for g in candidate_groundings(kb, facts, i, nconst):
-            e = fully_asserted(kb, facts, i, g, memo)
+            e = fully_asserted(kb, facts, i, g, memo, sc[3])
             if e is None:
                 continue
             if g not in after[i]:
@@ -605,3 +609,240 @@ def mon_c10_seed(sc, obs):
 
 
 CHECKS = {"C14": check_C14, "C15": check_C15, "C09": check_C09, "C10": check_C10}
+
+
+# ---------------------------------------------------------------- C02
+def all_gnds(ar, nconst):
+    return list(itertools.product(range(nconst), repeat=ar))
+
+
+def gen_consistent(rng, nconst=3, **kw):
+    """KB + hidden ground interpretation + data around it"""
+    while True:
+        kb, worlds = gen_fol.gen_fkb(rng, **kw)
+        roots = gen_fol.froots(rng, kb)
+        kb, worlds, roots = gen_fol.frestrict(kb, worlds, roots)
+        if any(o[0] != 0 for o in kb):
+            break
+    worlds = [(w if o[0] == 0 and w != gen_fol.AXIOM else gen_fol.OPEN) for o, w in zip(kb, worlds)]
+    hidden = {}
+    data = []
+    for i, o in enumerate(kb):
+        if o[0] != 0:
+            continue
+        closed = worlds[i] == gen_fol.CLOSED
+        d = []
+        for g in all_gnds(o[3], nconst):
+            assert_it = rng.random() < 0.45
+            if closed and not assert_it:
+                hidden[(i, g)] = F(0)
+                continue
+            x = rng.choice([F(0), F(1), F(0), F(1), F(1, 2), F(1, 4), F(3, 4), F(1, 8)])
+            hidden[(i, g)] = x
+            if assert_it:
+                c = rng.random()
+                if c < 0.5:
+                    b = [x, x]
+                else:
+                    b = [rng.choice([v for v in G8 if v <= x]), rng.choice([v for v in G8 if v >= x])]
+                d.append([list(g), b])
+        if d:
+            data.append([i, d])
+
+    def val(i, g):
+        if (i, g) in hidden:
+            return hidden[(i, g)]
+        kd, ops, maps = kb[i][0], kb[i][1], kb[i][2]
+        xs = [val(j, tuple(g[s] for s in m)) for j, m in zip(ops, maps)]
+        if kd == 1:
+            r = 1 - xs[0]
+        else:
+            pt = up_oracle(kd, kb[i][4], [(x, x) for x in xs])
+            r = pt[0]
+        hidden[(i, g)] = r
+        return r
+    for i, o in enumerate(kb):
+        if o[0] != 0:
+            d = []
+            for g in all_gnds(o[3], nconst):
+                x = val(i, g)
+                if rng.random() < 0.2 and x in G8:
+                    d.append([list(g), rng.choice([[x, x], [rng.choice([v for v in G8 if v <= x]), F(1)]])])
+            if d:
+                data.append([i, d])
+    return kb, worlds, roots, data, hidden
+
+
+G8 = gen_fol.G8
+
+
+@monitor("fol_c02_hidden")
+def mon_c02_hidden(sc, obs):
+    if whole_error(obs):
+        return ("no exception on ground-consistent data", f"raised error class {obs[1]}", None)
+    hidden = {}
+    for i, g, x in sc[6]:
+        hidden[(i, tuple(g))] = sx.q(x)
+    tr = Trace(sc, obs)
+    for st in tr.steps():
+        if st["error"] is not None:
+            return (f"op #{st['n']} {st['op']} completes on ground-consistent data", f"raised error class {st['error']}", None)
+        if st["after"] is None:
+            continue
+        for i in range(tr.n):
+            al = sx.q(tr.kb[i][4][0])
+            for g, (l, u) in st["after"][i].items():
+                x = hidden.get((i, g))
+                if x is None:
+                    continue
+                tol = F(0) if not (lib._inexact([l.numerator, l.denominator]) or lib._inexact([u.numerator, u.denominator])) else F(1, 2 ** 18)
+                if not (l - tol <= x <= u + tol):
+                    return (f"after op #{st['n']} {st['op']}: bounds of object {i} grounding {g} contain the ground interpretation's value {x} (the ground theory has this model)", f"({l}, {u})", None)
+    return None
+
+
+def ground_kb(sc, nconst):
+    """propositional theory of the ground instances (atoms P(c..) for all groundings, one connective object per formula grounding)"""
+    kb, roots, worlds, data = sc[1], sc[2], sc[3], sc[4]
+    facts = initial_tables(sc)
+    index = {}
+    pkb, pdata = [], []
+    for i, o in enumerate(kb):
+        for g in all_gnds(o[3], nconst):
+            kd = o[0]
+            if kd == 0:
+                pkb.append([0, [], [F(1), F(1), [], 1], []])
+            else:
+                ops = [index[(j, tuple(g[s] for s in m))] for j, m in zip(o[1], o[2])]
+                if kd == 1:
+                    pkb.append([1, ops, [sx.q(o[4][0]) if not isinstance(o[4][0], F) else o[4][0], F(1), [], 1], []])
+                else:
+                    pkb.append([kd, ops, o[4], []])
+            index[(i, g)] = len(pkb) - 1
+            b = facts[i].get(g)
+            w = sx.bnd(worlds[i]) if not isinstance(worlds[i][0], F) else tuple(worlds[i])
+            if b is not None:
+                pdata.append([index[(i, g)], [b[0], b[1]]])
+            elif tuple(w) != (F(0), F(1)):
+                pdata.append([index[(i, g)], [w[0], w[1]]])
+    proots = [index[(r, g)] for r in roots for g in all_gnds(kb[r][3], nconst)]
+    return [3, pkb, proots, pdata, [[5, -1, 60], [9]]], index
+
+
+def check_C02(ctx):
+    st, pr = standard_prologue(ctx)
+    rng = ctx.rng("c02")
+    n = 300 if ctx.quick else 3000
+    nconst = 3
+    scs, meta = [], []
+    for _ in range(n):
+        kb, worlds, roots, data, hidden = gen_consistent(rng, nconst, maxar=2 if rng.random() < 0.7 else 3)
+        ops = gen_fol.gen_fops(rng, kb, roots, rng.choice([3, 5, 8]), nconst, data_ops=0.0)
+        hid = [[i, list(g), x] for (i, g), x in hidden.items()]
+        scs.append([40, kb, roots, worlds, data, ops, hid])
+        hom = all(all(m == o[2][0] for m in o[2]) for o in kb if o[0] >= 2)
+        meta.append({"nobj": len(kb), "kinds": sorted(set(o[0] for o in kb)), "hetero": not hom, "maxar": max(o[3] for o in kb)})
+    run_fol(ctx, "K6 first-order engine on ground-consistent data", scs, ["fol_c02_hidden", "fol_c05"], hashseeds=(0, 5))
+    # ground-propagation oracle: FOL infer() vs the implementation's own propositional inference over the ground instances
+    m2 = 60 if ctx.quick else 600
+    pairs = []
+    fol_lines, gr_lines = [], []
+    for sc in scs[:m2]:
+        sc2 = [40, sc[1], sc[2], sc[3], sc[4], [[5, -1, 40]]]
+        g, index = ground_kb(sc2, nconst)
+        pairs.append((sc2, index))
+        fol_lines.append(sx.dumps(sc2))
+        gr_lines.append(sx.dumps(g))
+    fo = lib.run_impl(fol_lines, per_proc=20)
+    go = lib.run_impl(gr_lines, per_proc=10)
+    ctx.cov["evaluations"] += 2 * len(fol_lines)
+    ncmp = 0
+    for (sc2, index), fl, gl, fo_, go_ in zip(pairs, fol_lines, gr_lines, fo, go):
+        fobs, gobs = sx.loads(fo_), sx.loads(go_)
+        if whole_error(fobs) or whole_error(gobs) or (gobs[0] and gobs[0][0] == -900) or (fobs[0] and fobs[0][0] == -900):
+            continue
+        if gobs[0][0] >= 60 or bool(gobs[1][0]):
+            continue   # ground propagation did not converge within the guard / found a contradiction (arresting differs)
+        gstate = [sx.bnd(b) for b in gobs[0][2]]
+        ftabs = tabs(fobs[0][2])
+        ncmp += 1
+        for i, t in enumerate(ftabs):
+            for g, (l, u) in t.items():
+                gl_, gu_ = gstate[index[(i, g)]]
+                if l > gl_ or u < gu_:
+                    ctx.violation("fol_c02_ground", fl, 0, f"bounds of object {i} grounding {g} are not tighter than exhaustive propagation over the ground instances yields ({gl_}, {gu_}) (ground theory: {gl[:200]}...)",
+                                  f"({l}, {u})", None)
+                    break
+    ctx.cov["ground_fixpoint_comparisons"] = ncmp
+    ctx.cov["distribution"] = fdist(meta)
+    ctx.corpus(["d5_not_rows.py"])
+    ctx.assumptions.append("proved: semantic soundness w.r.t. every ground interpretation (C02_ground_sound); the comparison with the ground propagation fixpoint is checked on the implementation, not proved")
+    return ctx.finish("proof", pr, st, rule="K6 on ground-consistent data: random first-order KBs; a hidden ground interpretation assigns every ground atom over 3 constants a value (CLOSED predicates: non-zero only where asserted), formula instances are evaluated exactly; "
+                      "facts = bounds around it; 3-8 random inference calls; monitor: every stored bound contains the hidden value after every call. Ground oracle: the same KB instantiated at all groundings as a propositional theory "
+                      "(unasserted atoms at their world default) run through the implementation's propositional infer(); every first-order bound after infer() must be no tighter than the ground fixpoint (compared when the ground run converges without contradiction)")
+
+
+@monitor("fol_c02_ground")
+def mon_c02_ground(sc, obs):
+    return None
+
+
+# ---------------------------------------------------------------- C16
+def reads_equal(ta, tb, world):
+    """tables equal as maps-with-default"""
+    for i, (a, b) in enumerate(zip(ta, tb)):
+        for g in set(a) | set(b):
+            if a.get(g, world[i]) != b.get(g, world[i]):
+                return (i, g, a.get(g, world[i]), b.get(g, world[i]))
+    return None
+
+
+@monitor("fol_c16")
+def mon_c16(sc, obs):
+    if whole_error(obs):
+        return None
+    tr = Trace(sc, obs)
+    sts = list(tr.steps())
+    if any(s["error"] is not None for s in sts):
+        return None
+    k1, k2 = sc[6], sc[7]      # index of the op that ends run 1, index of the op that ends run 2
+    kb = tr.kb
+    world = sts[0]["world"]
+
+    def contra(t):
+        return any(crossed(sx.q(kb[i][4][0]), l, u) for i in range(tr.n) for (l, u) in t[i].values())
+    r1, r2 = sts[k1], sts[k2]
+    if r1["ret"] is not None and r1["ret"] >= 30 or r2["ret"] is not None and r2["ret"] >= 30:
+        return None
+    site = None
+    if contra(r1["after"]) or contra(r2["after"]):
+        site = "arresting-on-contradictory-data"
+    d = reads_equal(r1["after"], r2["after"], world)
+    if d:
+        return (f"after reset_bounds(), infer() reproduces the bounds of the first run: object {d[0]} grounding {d[1]} = {d[2]}", f"{d[3]}", site)
+    return None
+
+
+def gen_c16(ctx, n, fol=True):
+    rng = ctx.rng("c16")
+    scs, meta = [], []
+    for _ in range(n):
+        kb, worlds, roots, data, hidden = gen_consistent(rng, 3, maxar=2 if rng.random() < 0.7 else 3)
+        if rng.random() < 0.3:
+            data = gen_fol.gen_fdata(rng, kb, 3)   # free (possibly inconsistent) data
+        pre = []
+        for _k in range(rng.choice([0, 1, 2])):
+            i = rng.randrange(len(kb))
+            pre.append(rng.choice([[12, i, gen_fol.rnd_gnd(rng, kb[i][3], 4)], [9]]))
+        mid = gen_fol.gen_fops(rng, kb, roots, rng.choice([0, 2, 4]), 3, data_ops=0.0) if rng.random() < 0.5 else []
+        ops = pre + [[5, -1, 30]]
+        k1 = len(ops) - 1
+        ops += [[9]] + mid + [[7], [5, -1, 30]]
+        k2 = len(ops) - 1
+        scs.append([40, kb, roots, worlds, data, ops, k1, k2])
+        hom = all(all(m == o[2][0] for m in o[2]) for o in kb if o[0] >= 2)
+        meta.append({"nobj": len(kb), "kinds": sorted(set(o[0] for o in kb)), "hetero": not hom, "maxar": max(o[3] for o in kb)})
+    return scs, meta
+
+
+CHECKS.update({"C02": check_C02})
